@@ -55,7 +55,7 @@ def cmp_cblog(exp_log, obs_cb, diffs):
                 diffs.append("callback #%d: validation of %s saw %d values, expected %d" % (i + 1, e["o"], len(ov), len(ev)))
 
 
-def check_parse_result(exp, line, diffs, aspects, pol, clean=True, base_out=0):
+def check_parse_result(exp, line, diffs, aspects, pol, clean=True, base_out=0, scratch=None):
     """compare one parse's expected outcome with the driver's observation line"""
     st = exp["status"]
     if line["out"] != base_out:
@@ -78,8 +78,10 @@ def check_parse_result(exp, line, diffs, aspects, pol, clean=True, base_out=0):
         if exp["ndiag"] == "some" and nd == 0:
             diffs.append(("diag", "rejected text delivered no diagnostic"))
         if exp["ndiag"] == "some" and nd > 0 and "diagpos" in aspects:
-            e1, o1 = exp["diag1"], line["diag"][0]
+            e1, o1 = exp["diag1"], dict(line["diag"][0])
             efile = "[buf]" if e1["file"] == "buf" else e1["file"]
+            if scratch and o1["file"] and o1["file"].startswith(scratch):
+                o1["file"] = "$R" + o1["file"][len(scratch):]
             if o1["file"] != efile or o1["line"] != e1["line"]:
                 diffs.append(("diagpos", "first diagnostic at %s:%s expected %s:%s (%r)" % (
                     o1["file"], o1["line"], efile, e1["line"], o1["msg"])))
@@ -156,7 +158,7 @@ def replay(verdict, exe, res, aspects, pol=None, seed=0, renderings=("canonical"
         clean = True
         for p, line in zip(b["parses"], plines):
             diffs = []
-            check_parse_result(p["exp"], line, diffs, aspects, pol, clean, g["begin"]["out"])
+            check_parse_result(p["exp"], line, diffs, aspects, pol, clean, g["begin"]["out"], g["begin"].get("scratch"))
             if p["exp"]["status"] != "ok":
                 clean = False
             if diffs:
